@@ -39,6 +39,11 @@ def handleCm (toks : List String) : Option String := do
     some (cmLine hexEncode (confusion p t))
   else none
 
+/-- `CountedTargets` receiver whose cached label set is `lp` -/
+def handleCmStale (toks : List String) : Option String := do
+  let lp ← argNats toks "lp"; let p ← argNats toks "p"; let t ← argNats toks "t"
+  some (cmLine toString (confusionWith lp p t))
+
 def eps32 : Float32 := 1e-10
 def f32Epsilon : Float32 := Float32.ofBits 0x34000000
 
@@ -133,6 +138,7 @@ def handle (toks : List String) : String :=
   let r := match toks with
     | "cm" :: rest => handleCm rest
     | "cmf" :: rest => withForm rest handleCm
+    | "cms" :: rest => handleCmStale rest
     | "roc" :: rest => handleRoc true rest
     | "rocf" :: rest => withForm rest (handleRoc false)
     | "logloss" :: rest => handleLogLoss rest
@@ -146,6 +152,7 @@ def handle (toks : List String) : String :=
     | "silf" :: rest => withForm rest (handleSil 64)
     | "pearson" :: rest => handlePearson 64 rest
     | "pearson32" :: rest => handlePearson 32 rest
+    | "pearsonf" :: rest => withForm rest (handlePearson 64)
     | _ => none
   r.getD "bad-op"
 
